@@ -64,5 +64,14 @@ func buildPipeline(g *scheduler.ExecutionGraph, stages []*stageDefinition, cfg *
 		}
 	}
 
+	// a dependency may be declared before the stage it names, so names are checked once all stages are known
+	for name, stage := range g.Nodes() {
+		for _, dep := range stage.DependsOn {
+			if _, err := g.Node(dep); err != nil {
+				return nil, fmt.Errorf("stage %s depends on unknown stage %s", name, dep)
+			}
+		}
+	}
+
 	return g, nil
 }
